@@ -24,7 +24,10 @@ class ParseUnytExpr(Contract):
 
     def result(self, it, a):
         if it.branch(it.fresh_bool("parsed_is_expr")):
-            return SExpr.fresh(it, "parsed")
+            e = SExpr.fresh(it, "parsed")
+            from pyvc.unyt_domain import expr_str
+            it.assume(z3.Length(expr_str(e.term)) >= 1)      # ASSUMED['sympy-str-nonempty']
+            return e
         return Opaque("parsed_non_expr")
 
     def ensures(self, it, a, r, old):
